@@ -346,6 +346,24 @@ def run_columns():
                     sub = [(z3.Real('P1_%d_%d' % (i, j)), z3.Real('P0_%d_%d' % (i, j))) for i in range(nt + 1) for j in range(nt + 1)]
                     solve.prove('I:len=%d,terms=%d:row%d:column-run==single-column-run' % (K, nt, k),
                                 a_ == z3.substitute(b_, *sub), [])
+            # a complex table whose first column happens to be real-valued: the other columns keep their imaginary parts
+            # (each output is the same weighted sum of its own column, real and imaginary part alike)
+            ctab = SymArr([[real('s%d_c0' % k), cplx('z%d_c1' % k), cplx('z%d_c2' % k)] for k in range(K)])
+            cpaths = explore(lambda: Rch(ctab, steps))
+            okc = len(cpaths) == 1 and cpaths[0].exc is None and len(paths) == 1 and paths[0].exc is None
+            solve.fact('I:len=%d,terms=%d:complex-table-with-real-first-column:single-path' % (K, nt), okc, note=str([repr(p.exc)[:100] for p in cpaths if p.exc][:1]))
+            if okc:
+                T_ = min(nt, K - 1)
+                newc = cpaths[0].value[0]
+                Pc = PINV_LOG[-1][1] if PINV_LOG else None
+                for c in (1, 2):
+                    for k in range(asobj(newc).shape[0]):
+                        if Pc is None or T_ == 0:
+                            want = C.lift(lift(ctab[k, c]))
+                        else:
+                            want = sum((C.lift(lift(Pc[0, i])) * C.lift(lift(ctab[k + i, c])) for i in range(T_ + 1)), C.lift(R(0)))
+                        got = C.lift(lift(newc[k, c]))
+                        polyzero('I:len=%d,terms=%d:complex-column%d:row%d==sum_i w_i*column[%d+i](real and imaginary part)' % (K, nt, c, k, k), got - want, [])
     return {}
 
 
@@ -362,7 +380,7 @@ def run_reconf():
         Rch = ex.Richardson(step_ratio=cfgs[0][0], step=cfgs[0][2], order=cfgs[0][3], num_terms=cfgs[0][4])
         for ci, (r, q, step, order, nt) in enumerate(cfgs):
             Rch.step_ratio, Rch.step, Rch.order, Rch.num_terms = r, step, order, nt
-            for K in (nt + 1, nt + 3, 2):
+            for K in (2, nt + 1, nt + 3, 2):        # a short sequence first: handling it with fewer terms must not change the object
                 T = min(nt, K - 1)
                 tag = 'config%d(step=%d,order=%d,terms=%d),len=%d:' % (ci, step, order, nt, K)
                 for use in ('rule', 'call'):
@@ -373,6 +391,8 @@ def run_reconf():
                         tab = SymArr([[real('s%d' % k)] for k in range(K)])
                         steps = SymArr([[real('h%d' % k)] for k in range(K)])
                         new, err, st = Rch(tab, steps)
+                    solve.fact(tag + use + ':configuration-unchanged-by-the-%s' % use, (Rch.step, Rch.order, Rch.num_terms) == (step, order, nt) and Rch.step_ratio is r,
+                               note=str((Rch.step, Rch.order, Rch.num_terms)))
                     solve.fact(tag + use + ':matrix-rebuilt-and-inverted', len(PINV_LOG) >= 1, note=str(len(PINV_LOG)))
                     if not PINV_LOG:
                         continue
